@@ -33,6 +33,7 @@ def run(repo, report, tier):
     report.rule("C04.R7", "minimal_report: each documented column of --report=minimal shows the tally it is documented to show (reads/bases in, per-filter counts, reads out, R1/R2 with adapters, R1/R2 quality-trimmed bases, R1/R2 bases out), with Statistics' one-line properties resolved to what they compute",
                 "a column of the minimal report shows another quantity (e.g. bases of both reads under out_bp), so the report no longer adds up with the files")
     report.guard("C04.R7", "minimal_report", r7_minimal_columns, repo, report)
+    report.guard("C04.R7", "full_report sections", r7_report_sections, repo, report)
     report.rule("C04.R8", "no two writers share a file: main() hands every output option to complain_about_duplicate_paths, and that function compares a normalised form of the path (so that two spellings of one file are recognised) and raises on a repeat",
                 "the same file is opened by two writers: one overwrites the other's records while the report counts both as written")
     report.guard("C04.R8", "duplicate output paths", r8_duplicate_paths, repo, report)
@@ -485,6 +486,28 @@ def r7_minimal_columns(repo, report):
 _OUTPUT_OPTIONS = ("output", "paired_output", "untrimmed_output", "untrimmed_paired_output", "too_short_output", "too_short_paired_output",
                    "too_long_output", "too_long_paired_output", "rest_file", "info_file", "wildcard_file")
 _NORMALISERS = ("os.path.realpath", "realpath")  # abspath/normpath do not see through symbolic links (and normpath not even through a relative spelling)
+
+
+def r7_report_sections(repo, report):
+    """The text report prints an optional quantity in a block guarded by  stats.X is not None . Everything such a block
+    shows belongs to X (X itself, its fraction, its per-read parts): a block that reads a sibling quantity prints one
+    tally under the other's label."""
+    fn = repo.func("report", "full_report")
+    sp = params(fn)[0]
+    n = 0
+    for node in ast.walk(fn):
+        if not (isinstance(node, ast.If) and isinstance(node.test, ast.Compare) and len(node.test.ops) == 1 and isinstance(node.test.ops[0], ast.IsNot) and (chain(node.test.left) or "").startswith(sp + ".")
+                and isinstance(node.test.comparators[0], ast.Constant) and node.test.comparators[0].value is None):
+            continue
+        x = chain(node.test.left)[len(sp) + 1:]
+        shown = sorted({chain(a)[len(sp) + 1:] for st in node.body for a in ast.walk(st) if isinstance(a, ast.Attribute) and (chain(a) or "").startswith(sp + ".")})
+        if not shown:
+            continue
+        n += 1
+        foreign = [y for y in shown if not y.startswith(x) and y != "paired"]
+        report.ob("C04.R7", f"full_report: the block of {x} shows {x}", not foreign, facts={"reads": shown}, loc=repo.loc(node), expected=f"only {sp}.{x}* (and {sp}.paired) inside `if {sp}.{x} is not None`",
+                  why=(f"the section guarded by {x} prints {sp}.{foreign[0]}: the per-read lines under one label are the other trimmer's numbers" if foreign else ""))
+    report.floor("C04.R7", "optional sections of the text report", n, 2)
 
 
 def r8_duplicate_paths(repo, report):
